@@ -455,23 +455,30 @@ func replaceEnvVars(s string) string {
 // replaceEnvReferences performs the actual replacement of env variables
 // in s, given the placeholder start and placeholder end strings.
 func replaceEnvReferences(s, refStart, refEnd string) string {
-	index := strings.Index(s, refStart)
-	for index != -1 {
+	// A value is inserted as it is and the search goes on behind it: text
+	// that came out of the environment is not searched for references
+	// again, so a value that contains one (to itself, say) cannot keep
+	// this loop going forever.
+	var done strings.Builder
+	for {
+		index := strings.Index(s, refStart)
+		if index == -1 {
+			break
+		}
 		endIndex := strings.Index(s[index:], refEnd)
 		if endIndex == -1 {
 			break
 		}
 
 		endIndex += index
-		if endIndex > index+len(refStart) {
-			ref := s[index : endIndex+len(refEnd)]
-			s = strings.Replace(s, ref, os.Getenv(ref[len(refStart):len(ref)-len(refEnd)]), -1)
-		} else {
-			return s
+		if endIndex <= index+len(refStart) {
+			break
 		}
-		index = strings.Index(s, refStart)
+		done.WriteString(s[:index])
+		done.WriteString(os.Getenv(s[index+len(refStart) : endIndex]))
+		s = s[endIndex+len(refEnd):]
 	}
-	return s
+	return done.String() + s
 }
 
 // ServerBlock associates any number of keys (usually addresses
